@@ -117,7 +117,41 @@ pub fn pool(seed: u64) -> Vec<Call> {
         })
     });
     let zip = (prop_oneof![Just(0usize), 1usize..40, 200usize..3000, Just(40_000usize)], 1u8..200, 0u32..10, prop_oneof![2 => Just(0u8), 1 => Just(1u8), 1 => Just(2u8)]).prop_map(|(len, period, level, damage)| Call::Zip { len, period, level, damage });
-    let strat = prop_oneof![4 => enc, 4 => dec, 2 => stream, 1 => graph, 6 => fam, 3 => zip];
+    // encodes above 64 KiB (buffers that are kept around have size policies), and decodes of streams that cite a string
+    // or an object that THIS stream never introduced (tables that are kept around have contents)
+    let a = |t: Ty| Arc::new(t);
+    let big = (prop::sample::select(vec![Ty::Str, Ty::Bytes, Ty::Vec(a(Ty::U16)), Ty::Tuple(vec![Ty::U8, Ty::Str])]), 66_000usize..200_000, any::<u8>()).prop_map(|(ty, n, b)| {
+        let val = match &ty {
+            Ty::Str => vmodel::Val::Str("s".repeat(n)),
+            Ty::Bytes => vmodel::Val::Bytes(vec![b; n]),
+            Ty::Vec(_) => vmodel::Val::Seq(vec![vmodel::Val::Int(b as i128); n / 2]),
+            _ => vmodel::Val::Tuple(vec![vmodel::Val::Int(b as i128), vmodel::Val::Str("t".repeat(n))]),
+        };
+        Call::Enc(TV { ty, val, forms: vec![] })
+    });
+    let dangling = (1i32..4, 0u8..3).prop_map(move |(id, shape)| {
+        let mut bytes = Vec::new();
+        let ty = match shape {
+            0 => {
+                vmodel::refcodec::var_i32(2, &mut bytes);
+                vmodel::refcodec::var_i32(-id, &mut bytes);
+                vmodel::refcodec::var_i32(-id, &mut bytes);
+                Ty::Vec(Arc::new(Ty::Dedup))
+            }
+            1 => {
+                bytes.push(0);
+                vmodel::refcodec::var_i32(-id, &mut bytes);
+                bytes.extend_from_slice(&[2, b'z']);
+                Ty::Tuple(vec![Ty::Dedup, Ty::Dedup])
+            }
+            _ => {
+                vmodel::refcodec::var_i32(-id, &mut bytes);
+                Ty::Dedup
+            }
+        };
+        Call::Dec { ty, bytes }
+    });
+    let strat = prop_oneof![4 => enc, 4 => dec, 2 => stream, 1 => graph, 6 => fam, 3 => zip, 1 => big, 2 => dangling];
     let mut r = runner(tag_seed(derive_seed(seed, "C18-pool", 0, 0), 0));
     (0..POOL).map(|_| strat.new_tree(&mut r).expect("pool").current()).collect()
 }
